@@ -1,6 +1,7 @@
 package main
 
 import (
+	"github.com/robertkrimen/otto/parser"
 	"ottoverif/cmd/c03/astx"
 	"ottoverif/h"
 )
@@ -137,7 +138,11 @@ var earlyTable = []earlyT{
 	{"x = 0x1F\ny", "accept", "-", "7.9.1"},
 	{"x = 's'\ny", "accept", "-", "7.9.1"},
 	{"x = /re/g\ny", "accept", "-", "7.9.1"},
-	{"x = /re/\ny", "accept", "-", "7.9.1"},
+	{"x = /re/\nvar y", "accept", "-", "7.9.1"},
+	{"var re = /=+/\nvar x", "accept", "-", "7.9.1: a literal whose body starts with = is opened by the /= token"},
+	{"x = /=(\\d+)/\n++i", "accept", "-", "7.9.1"},
+	{"x = /=/\nthis.q = 1", "accept", "-", "7.9.1"},
+	{"x = /[/]=/g\nvar y", "accept", "-", "7.9.1"},
 	{"var a,", "reject", "-", "12.2"},
 	{"var", "reject", "-", "12.2"},
 	{"function (){}", "reject", "-", "13: FunctionDeclaration needs a name"},
@@ -170,7 +175,37 @@ var earlyTable = []earlyT{
 	{"a &^= b", "reject", "-", "7.7"},
 }
 
+// parser.ParseFunction (the Function constructor): parameter text and body text must form exactly one function literal.
+var earlyFnTable = []struct{ params, body, expect, ref string }{
+	{"", "", "accept", "15.3.2.1"},
+	{"a, b", "return a + b", "accept", "15.3.2.1"},
+	{"a", "}) (function(){", "reject", "15.3.2.1: body must parse as a FunctionBody"},
+	{"", "})(function(){", "reject", "15.3.2.1"},
+	{"a){ evil() }; (function(", "", "reject", "15.3.2.1: the parameter text must parse as a FormalParameterList"},
+	{"a, b", "return /*", "reject", "7.4"},
+	{"a b", "", "reject", "13"},
+	{"", "break;", "reject", "12.8"},
+	{"", "return", "accept", "12.9"},
+	{"", "x = 1 } { y = 2", "reject", "15.3.2.1"},
+}
+
+func implEarlyFn(f []string) (out string) {
+	defer func() {
+		if r := recover(); r != nil {
+			out = "panic:parse"
+		}
+	}()
+	_, err := parser.ParseFunction(astx.UnHex(f[3][1:]), astx.UnHex(f[4][1:]))
+	if err != nil {
+		return "reject"
+	}
+	return "accept"
+}
+
 func genEarly(c *h.Ctx) {
+	for _, t := range earlyFnTable {
+		c.Add("earlyfn "+t.expect+" - x"+astx.Hex(t.params)+" x"+astx.Hex(t.body), "earlyfn", "earlyfn:"+t.expect)
+	}
 	for _, t := range earlyTable {
 		c.Add("early "+t.expect+" "+t.region+" x"+astx.Hex(t.src), "early", "early:"+t.expect)
 	}
